@@ -126,7 +126,7 @@ def gen(run_seed: int, tier: str) -> dict:
             op["abs"] = True if cwd != rootname else bool(t.draw(2, "abs"))
             ops.append(op)
         elif k < 85:
-            ev = t.pick(["edit", "edit", "delete", "add", "rename", "touch", "directive", "directive"], "event")
+            ev = t.pick(["edit", "edit", "delete", "add", "rename", "touch", "directive", "directive", "directive"], "event")
             fs = sorted(files)
             if ev == "directive":
                 # flip suppression directives in place, keeping everything else where it is
